@@ -526,11 +526,13 @@ def _d_dispatch(chk):
         if cls_name == "_ExtendedSymplectic":
             continue
         picks = {}
+        kws = {}
         for event in (False, True):
             for ham in (False, True):
                 outcome, sol, cap = _run_integrate(cls_name, modname, drivers, tv, rep, ham=ham, event=event)
                 names = [c[0] for c in cap["calls"]]
                 picks[(event, ham)] = names
+                kws[(event, ham)] = _bound_kwargs(modname, cls_name, cap["calls"][0]) if len(cap["calls"]) == 1 else None
                 want_ham = ham
                 ok = outcome == "return" and len(names) == 1 and names[0].endswith("_ham") == want_ham
                 kw = cap["calls"][0][1] if cap["calls"] else {}
@@ -544,4 +546,43 @@ def _d_dispatch(chk):
                           f"{'Hamiltonian' if ham else 'generic'} system on the {'event' if event else 'plain'} branch runs {names} "
                           f"(the fast path must be taken on both branches or on neither, with the system's (jac_H, clmo_H, n_dof))",
                           sample=f"event={event}, ham={ham} -> {names}")
+        # twin agreement: the Hamiltonian kernel is driven with the same tolerances, step limits, tables and grid as the generic one
+        for event in (False, True):
+            a, b = kws.get((event, False)), kws.get((event, True))
+            if a is None or b is None:
+                continue
+            shared = sorted(k for k in set(a) & set(b) if k not in ("f", "jac_H", "clmo_H", "n_dof", "event_fn", "event_compiled"))
+            diff = {k: (a[k], b[k]) for k in shared if not _same_value(a[k], b[k])}
+            chk.check(not diff and len(shared) >= 3, "C17.d", f"{modname}::{cls_name}.integrate[event={event},twin options]",
+                      f"the Hamiltonian and the generic kernel are driven with different values for {diff} (generic, Hamiltonian): the two paths do not solve the same problem",
+                      sample=f"event={event}: {len(shared)} shared options equal ({', '.join(shared[:8])}...)")
     chk.count("functions partially evaluated", 12)
+
+
+def _same_value(a, b):
+    if isinstance(a, np.ndarray) or isinstance(b, np.ndarray):
+        a, b = to_obj_array(a), to_obj_array(b)
+        return a.shape == b.shape and all(x == y for x, y in zip(a.ravel(), b.ravel()))
+    try:
+        return bool(a == b)
+    except Exception:  # noqa: BLE001
+        return a is b
+
+
+def _bound_kwargs(modname, cls_name, call):
+    """Arguments of a captured kernel call by the kernel's own parameter names."""
+    name, kw, args = call
+    mod, cls = ri.find_def(modname, cls_name)
+    fn = None
+    for m, c in ri.mro(mod, cls):
+        fn = next((f for f in c.body if isinstance(f, ast.FunctionDef) and f.name == name), None)
+        if fn is not None:
+            break
+    if fn is None:
+        r = ri.resolve(mod, name)
+        fn = r[2] if r and r[0] == "def" else None
+    out = dict(kw)
+    if fn is not None:
+        params = [a.arg for a in fn.args.args if a.arg not in ("self", "cls")]
+        out.update(dict(zip(params, args)))
+    return out
